@@ -276,7 +276,35 @@ def c14():
                 ASSUME_TRACE + ["power cut = loss of a suffix of the device write sequence (write-back cache honouring flush; no reordering, no torn writes)"])
 
 
-CHECKS = {"C09": c09, "C14": c14, "C01": c01, "C02": c02, "C03": c03, "C04": c04, "C05": c05, "C12": c12, "C13": c13}
+def c06():
+    t0 = time.time()
+    wd = workdir("C06")
+    rng = rng_for("C06", 0)
+    reqs = gen.format_requests(rng, quick=(core.tier() == "quick"))
+    res = [("formats", core.campaign("formats", reqs, wd, spec="TraceFormat", mode="formats", n_shards=14, jvms=8))]
+    core.finish("C06", LEVEL, res, None, t0,
+                "format requests: default options at every sector count 0..129 and at every threshold of the sizing heuristics and FAT-type limits "
+                "(+-0,1,2 sectors, +- one cluster), an option grid (sector 512..32768, cluster none/512..1M, 1-2 FATs, root entries, forced widths), exact "
+                "cluster-count limits, labels/ids/media, and a random grid; each formatted image is decoded independently and mounted, TLC evaluates "
+                "Format!ValidFormatted in exact (limb) arithmetic; distinct = (outcome, error kind) shapes",
+                ["the independent decoder and BPB parse", "huge formats (> 64 GiB) are sampled, not exhaustive, in the quick tier"])
+
+
+def c07():
+    t0 = time.time()
+    wd = workdir("C07")
+    rng = rng_for("C07", 0)
+    bases = [("K1b", gen.K("K1b")["vol"]), ("K3", gen.K("K3")["vol"]), ("K5", gen.K("K5")["vol"])]
+    specs = gen.mount_specs(rng, bases, quick=(core.tier() == "quick"))
+    res = [("mounts", core.campaign("mounts", specs, wd, spec="TraceMount", mode="mounts", n_shards=14, jvms=8))]
+    core.finish("C07", LEVEL, res, None, t0,
+                "mount attempts on FAT12/16/32 images with mutated boot-sector and FSInfo fields: every value of every 8-bit field, 16-bit fields strided "
+                "(quick) or exhaustively (thorough), 32-bit fields at all 2^k, 2^k+-1, thresholds and random values, random 2-4 field combinations, "
+                "truncated devices, strict and non-strict; TLC evaluates Geometry!Coherent and the derived values in exact arithmetic on every outcome",
+                ["the independent BPB parse in the harness", "absence of panics is established for the enumerated inputs only"])
+
+
+CHECKS = {"C06": c06, "C07": c07, "C09": c09, "C14": c14, "C01": c01, "C02": c02, "C03": c03, "C04": c04, "C05": c05, "C12": c12, "C13": c13}
 
 
 def run(prop):
